@@ -5,6 +5,8 @@ signature functions for known findings, trusted-base notes."""
 def sig_c11(rec):
     case = rec.get("case") or {}
     size = case.get("size")
+    if case.get("kind"):
+        return "lru:%s:%s->%s" % (case.get("kind"), case.get("size_before"), case.get("size_after"))
     if isinstance(size, int) and 1 <= size <= 7:
         return "size-1..7-unlimited-shards"
     return "resident>size at size=%s" % size
@@ -113,6 +115,9 @@ def sys_prop(assumptions, explanation, with_wakeup=False, quick=120, with_choreo
 
 
 def sig_c20(rec):
+    if rec.get("family") == "reload":
+        case = rec.get("case") or {}
+        return "reload:%s:%s:%s" % (case.get("kind"), case.get("client_accept_encoding"), case.get("which"))
     if rec.get("family") == "racestress":
         return "racestress:" + str((rec.get("case") or {}).get("kind"))
     if rec.get("family") == "negotiate":
@@ -191,6 +196,7 @@ PROPS = {
     "C20": {
         "families": {"flight": flight_family(120, 1500, 300), "wakeup": WAKEUP_FAMILY, "choreo": CHOREO_FAMILY,
                      "negotiate": {"quick": 300, "thorough": 8000, "search": 3000, "components": NEGOTIATE_COMPONENTS},
+                     "reload": {"quick": 90, "thorough": 1800, "search": 450, "no_cases": True},
                      "racestress": RACESTRESS_FAMILY},
         "signature": sig_c20,
         "trusted_base": SYS_TRUST + [
